@@ -950,3 +950,323 @@ func canReachInstrNoLoop(a, b ssa.Instruction) bool {
 	}
 	return false
 }
+
+// ------------------------------------------------------------------ DT6 field mapping between events and state
+
+func init() {
+	register(&Rule{ID: "DT6", Min: 20, Run: ruleDT6,
+		Doc: "field-mapping-agreement: replay copies each payload field into the state field of the same meaning (Task.State<-NewState, ClaimedBy<-AgentID or \"\", Title<-Title, ..., Result.*<-ResultEvent.*) and compaction copies each state field back into the payload field of the same meaning (ClaimEvent.AgentID<-Task.ClaimedBy, StateEvent.NewState<-Task.State, ResultEvent.*<-Result.*, ids and uuids from the task): a swapped or substituted field survives every test that does not look at that field after a compact"})
+}
+
+type fieldMap struct {
+	target  string   // "ergo.Task.State"
+	sources []string // acceptable source field names (by "Type.Field" or "const:..." / "cmp")
+}
+
+func ruleDT6(c *Ctx) {
+	re, ce := c.anchor("replayEvents"), c.anchor("compactEvents")
+	if re == nil || ce == nil {
+		return
+	}
+	srcField := func(v ssa.Value) string {
+		v = resolve(v)
+		if b, n, ok := fieldLoad(v); ok {
+			return namedTypeName(b.Type()) + "." + n
+		}
+		if k, ok := v.(*ssa.Const); ok {
+			if k.Value == nil {
+				return "const:nil"
+			}
+			return "const:" + k.Value.ExactString()
+		}
+		if _, ok := v.(*ssa.BinOp); ok {
+			return "cmp"
+		}
+		if ph, ok := v.(*ssa.Phi); ok {
+			// conditional override (created value vs. meta value): every edge must be acceptable; report the set
+			var parts []string
+			for _, e := range ph.Edges {
+				parts = append(parts, srcFieldOf(e))
+			}
+			sort.Strings(parts)
+			return "phi(" + strings.Join(uniq(parts), "|") + ")"
+		}
+		if cl, _ := callOf(v); cl != nil {
+			// formatTime(x) / pickTime(...) wrappers around a time field
+			return "call:" + calleeShort(cl)
+		}
+		return "other"
+	}
+	check := func(f *ssa.Function, table map[string][]string, what string) {
+		cnt := map[string]int{}
+		for _, g := range append([]*ssa.Function{f}, Closures(f)...) {
+			eachInstr(g, func(r instrRef) {
+				st, ok := r.In.(*ssa.Store)
+				if !ok {
+					return
+				}
+				fa, ok := st.Addr.(*ssa.FieldAddr)
+				if !ok {
+					return
+				}
+				tgt := namedTypeName(fa.X.Type()) + "." + fieldName(fa.X.Type(), fa.Field)
+				want, governed := table[tgt]
+				if !governed {
+					return
+				}
+				cnt[tgt]++
+				got := srcField(st.Val)
+				ok2 := false
+				for _, w := range want {
+					if got == w {
+						ok2 = true
+					}
+					if strings.HasPrefix(got, "phi(") {
+						// all alternatives of the phi must be acceptable
+						all := true
+						for _, alt := range strings.Split(strings.TrimSuffix(strings.TrimPrefix(got, "phi("), ")"), "|") {
+							a := false
+							for _, w2 := range want {
+								if alt == w2 {
+									a = true
+								}
+							}
+							if !a {
+								all = false
+							}
+						}
+						if all {
+							ok2 = true
+						}
+					}
+				}
+				c.check(ok2, c.Name(f), fmt.Sprintf("%s %s#%d", what, strings.TrimPrefix(tgt, "ergo."), cnt[tgt]), c.Pos(st.Pos()),
+					tgt+" <- "+got, tgt+" is filled from "+got+", expected one of "+strings.Join(want, ", ")+": the field changes meaning across "+what)
+			})
+		}
+	}
+	replayTable := map[string][]string{
+		"ergo.Task.ID":       {"ergo.NewTaskEvent.ID"},
+		"ergo.Task.UUID":     {"ergo.NewTaskEvent.UUID"},
+		"ergo.Task.EpicID":   {"ergo.NewTaskEvent.EpicID", "ergo.EpicAssignEvent.EpicID"},
+		"ergo.Task.State":    {"ergo.NewTaskEvent.State", "ergo.StateEvent.NewState"},
+		"ergo.Task.Title":    {"ergo.NewTaskEvent.Title", "ergo.TitleUpdateEvent.Title"},
+		"ergo.Task.Body":     {"ergo.NewTaskEvent.Body", "ergo.BodyUpdateEvent.Body"},
+		"ergo.Task.ClaimedBy": {"ergo.ClaimEvent.AgentID", `const:""`},
+		"ergo.Task.IsEpic":   {"cmp"},
+		"ergo.Result.Summary":           {"ergo.ResultEvent.Summary"},
+		"ergo.Result.Path":              {"ergo.ResultEvent.Path"},
+		"ergo.Result.Sha256AtAttach":    {"ergo.ResultEvent.Sha256AtAttach"},
+		"ergo.Result.MtimeAtAttach":     {"ergo.ResultEvent.MtimeAtAttach"},
+		"ergo.Result.GitCommitAtAttach": {"ergo.ResultEvent.GitCommitAtAttach"},
+	}
+	check(re, replayTable, "replay")
+	compactTable := map[string][]string{
+		"ergo.NewTaskEvent.ID":            {"ergo.Task.ID"},
+		"ergo.NewTaskEvent.UUID":          {"ergo.Task.UUID"},
+		"ergo.NewTaskEvent.EpicID":        {"ergo.Task.EpicID", "ergo.TaskMeta.CreatedEpicID", "phi(ergo.Task.EpicID|ergo.TaskMeta.CreatedEpicID)"},
+		"ergo.NewTaskEvent.State":         {"ergo.Task.State", "ergo.TaskMeta.CreatedState"},
+		"ergo.NewTaskEvent.Title":         {"ergo.Task.Title", "ergo.TaskMeta.CreatedTitle"},
+		"ergo.NewTaskEvent.Body":          {"ergo.Task.Body", "ergo.TaskMeta.CreatedBody"},
+		"ergo.TitleUpdateEvent.ID":        {"ergo.Task.ID"},
+		"ergo.TitleUpdateEvent.Title":     {"ergo.Task.Title"},
+		"ergo.BodyUpdateEvent.ID":         {"ergo.Task.ID"},
+		"ergo.BodyUpdateEvent.Body":       {"ergo.Task.Body"},
+		"ergo.EpicAssignEvent.ID":         {"ergo.Task.ID"},
+		"ergo.EpicAssignEvent.EpicID":     {"ergo.Task.EpicID"},
+		"ergo.ClaimEvent.ID":              {"ergo.Task.ID"},
+		"ergo.ClaimEvent.AgentID":         {"ergo.Task.ClaimedBy"},
+		"ergo.StateEvent.ID":              {"ergo.Task.ID"},
+		"ergo.StateEvent.NewState":        {"ergo.Task.State"},
+		"ergo.ResultEvent.TaskID":         {"ergo.Task.ID"},
+		"ergo.ResultEvent.Summary":        {"ergo.Result.Summary"},
+		"ergo.ResultEvent.Path":           {"ergo.Result.Path"},
+		"ergo.ResultEvent.Sha256AtAttach": {"ergo.Result.Sha256AtAttach"},
+		"ergo.ResultEvent.MtimeAtAttach":  {"ergo.Result.MtimeAtAttach"},
+		"ergo.ResultEvent.GitCommitAtAttach": {"ergo.Result.GitCommitAtAttach"},
+	}
+	check(ce, compactTable, "compaction")
+}
+
+func srcFieldOf(v ssa.Value) string {
+	v = resolve(v)
+	if b, n, ok := fieldLoad(v); ok {
+		return namedTypeName(b.Type()) + "." + n
+	}
+	if k, ok := v.(*ssa.Const); ok && k.Value != nil {
+		return "const:" + k.Value.ExactString()
+	}
+	if ph, ok := v.(*ssa.Phi); ok {
+		var parts []string
+		for _, e := range ph.Edges {
+			if e == ssa.Value(ph) {
+				continue
+			}
+			parts = append(parts, srcFieldOf(e))
+		}
+		sort.Strings(parts)
+		return strings.Join(uniq(parts), "|")
+	}
+	return "other"
+}
+
+// ------------------------------------------------------------------ DT7 replay effects depend only on documented conditions
+
+func init() {
+	register(&Rule{ID: "DT7", Min: 10, Run: ruleDT7,
+		Doc: "replay-effects-unconditional: inside the replay loop every effect on the graph (a store into a Task/TaskMeta field, an insertion/removal in Tasks/Deps/Meta, prepending a result, applying a tombstone) depends only on the documented conditions: the event type, a successful payload/timestamp parse, the negative tombstone lookup of the ids the event names, the item named by the event's own id being present, the link type constant, and — for clearing the claim — the new state; any other condition (the state of another item, an ordering of timestamps, a kind test) makes what is shown depend on event order, so compaction (which re-orders events per item) or a merge can change it"})
+}
+
+func (c *Ctx) replayFactLabel(bf branchFact) string {
+	a := bf.A
+	tf := "F"
+	if bf.Holds {
+		tf = "T"
+	}
+	keyName := func(v ssa.Value) string {
+		if _, n, ok := fieldLoad(resolve(v)); ok {
+			return n
+		}
+		return "?"
+	}
+	switch a.Kind {
+	case "bool":
+		if ex, ok := strip(a.X).(*ssa.Extract); ok {
+			switch t := ex.Tuple.(type) {
+			case *ssa.Next:
+				return "range"
+			case *ssa.Lookup:
+				if _, n, ok := fieldLoad(t.X); ok {
+					return "lookup:" + n + "[" + keyName(t.Index) + "]:" + tf
+				}
+				return "lookup:?[" + keyName(t.Index) + "]:" + tf
+			}
+		}
+	case "nil":
+		if cl, _ := callOf(a.X); cl != nil {
+			return "err:" + calleeShort(cl)
+		}
+		if lk, ok := resolve(a.X).(*ssa.Lookup); ok {
+			if _, n, ok := fieldLoad(lk.X); ok {
+				return "nil:" + n + "[" + keyName(lk.Index) + "]"
+			}
+		}
+		if _, n, ok := fieldLoad(a.X); ok {
+			return "nil:" + n
+		}
+	case "const":
+		if b, n, ok := fieldLoad(a.X); ok {
+			return namedTypeName(b.Type()) + "." + n + "==const"
+		}
+	case "cmp":
+		return "cmp:" + a.Op.String()
+	}
+	return c.atomLabel(a) + ":" + tf
+}
+
+func ruleDT7(c *Ctx) {
+	re := c.anchor("replayEvents")
+	if re == nil {
+		return
+	}
+	fn := c.Name(re)
+	allowed := func(l string) bool {
+		switch {
+		case l == "range", strings.HasPrefix(l, "cmp:"), strings.HasPrefix(l, "err:"):
+			return true
+		case l == "ergo.Event.Type==const", l == "ergo.LinkEvent.Type==const", l == "ergo.StateEvent.NewState==const":
+			return true
+		case strings.HasPrefix(l, "lookup:Tombstones[") && strings.HasSuffix(l, ":F"):
+			return true
+		case l == "lookup:Tasks[ID]:T", l == "lookup:Tasks[ID]:F", l == "lookup:Tasks[TaskID]:T":
+			return true
+		case l == "nil:Meta[ID]", l == "nil:Deps[FromID]", strings.HasPrefix(l, "E==nil"):
+			return true
+		}
+		return false
+	}
+	cnt := map[string]int{}
+	// the event loop: effects are examined only inside a case of the switch over Event.Type
+	caseEdges := edgesWhere(re, func(a Atom, holds bool) bool {
+		if a.Kind != "const" || !holds {
+			return false
+		}
+		b, n, ok := fieldLoad(a.X)
+		return ok && n == "Type" && namedTypeName(b.Type()) == "ergo.Event"
+	})
+	report := func(in ssa.Instruction, what string) {
+		blk := in.Block()
+		if !mustPassEdges(re, blk, caseEdges) {
+			return // post-loop derivations (RDeps, sorted views) are unconditional by construction
+		}
+		hdr := enclosingLoopHeader(blk)
+		for h := hdr; h != nil; {
+			hdr = h
+			h = nil
+			for cur := hdr.Idom(); cur != nil; cur = cur.Idom() {
+				if reach(hdr, nil, nil)[cur] && cur.Dominates(hdr) && inCycle(cur) && reach(cur, nil, nil)[hdr] {
+					h = cur
+					break
+				}
+			}
+		}
+		blocked := map[*ssa.BasicBlock]bool{}
+		if hdr != nil {
+			blocked[hdr] = true
+		}
+		cnt[what]++
+		bad := ""
+		for _, bf := range branchFacts(re) {
+			if !bf.Holds {
+				continue // examine each If once (via its holding edge)
+			}
+			from := bf.E.From
+			if from == blk || !reach(from, nil, blocked)[blk] {
+				continue
+			}
+			if hdr != nil && !hdr.Dominates(from) {
+				continue
+			}
+			l := c.replayFactLabel(bf)
+			l0 := strings.TrimSuffix(strings.TrimSuffix(l, ":T"), ":F")
+			if allowed(l) || allowed(l0+":T") || allowed(l0+":F") {
+				continue
+			}
+			// does reaching the effect depend on this branch's outcome?
+			viaT := reach(from, map[edge]bool{{from, 1}: true}, blocked)[blk]
+			viaF := reach(from, map[edge]bool{{from, 0}: true}, blocked)[blk]
+			if viaT != viaF {
+				bad = l0
+			}
+		}
+		c.check(bad == "", fn, fmt.Sprintf("%s#%d", what, cnt[what]), c.Pos(in.Pos()), "effect depends only on the documented replay conditions",
+			"this replay effect also depends on `"+bad+"`: the visible state is no longer a function of the set of events but of their order (compaction re-emits events grouped per item, hand merges interleave them)")
+	}
+	eachInstr(re, func(r instrRef) {
+		switch x := r.In.(type) {
+		case *ssa.Store:
+			if fa, ok := x.Addr.(*ssa.FieldAddr); ok {
+				tn := namedTypeName(fa.X.Type())
+				if tn == "ergo.Task" || tn == "ergo.TaskMeta" {
+					if _, isAlloc := fa.X.(*ssa.Alloc); isAlloc {
+						return // literal initialisation
+					}
+					report(x, "store "+strings.TrimPrefix(tn, "ergo.")+"."+fieldName(fa.X.Type(), fa.Field))
+				}
+			}
+		case *ssa.MapUpdate:
+			report(x, "map-update")
+		case *ssa.Call:
+			n := calleeFullName(&x.Call)
+			if n == "builtin delete" {
+				report(x, "map-delete")
+			}
+			if cal := x.Call.StaticCallee(); cal != nil && cal == c.F.Anchors["applyTombstone"] {
+				report(x, "apply-tombstone")
+			}
+		}
+	})
+	if len(cnt) == 0 {
+		c.bad(fn, "effects", c.FnPos(re), "no replay effects found")
+	}
+}
